@@ -2107,6 +2107,10 @@ func (r *inlineByteReader) next() bool {
 	if node.Kind() != IndentKind && r.pos+1 < node.Span().End {
 		if r.source[r.pos] == 0 && r.source[r.pos+1] == 0 {
 			r.virtualPos = (r.virtualPos + 1) % len(nullReplacementString)
+		} else {
+			// Leaving a run of NUL padding (or not in one):
+			// the next run starts at the beginning of a replacement character.
+			r.virtualPos = 0
 		}
 		r.prevPos = r.pos
 		r.pos++
